@@ -733,6 +733,7 @@ fn run_parent(check: &Check, tier: Tier) -> i32 {
             .arg(tier.name())
             .arg(seed.to_string())
             .arg(&scratch)
+            .stdout(std::fs::File::create(scratch.join("stdout.log")).expect("log"))
             .stderr(log)
             .spawn()
             .expect("spawn worker");
